@@ -17,6 +17,18 @@ RT = 1e-9
 KNOWN_POLYTRI = []
 
 
+BASE = [None]      # None: the chiral general-position base shapes; "regular": a cube / a square (shapes that HAVE in- and circum-balls)
+
+
+def mk(cls, **kw):
+    if BASE[0] == "regular" and cls in Z.VERTEX_CLASSES:
+        if cls in ("Polygon", "ConvexPolygon", "ConvexSpheropolygon"):
+            kw["base"] = np.array([[0, 0], [2.5, 0], [2.5, 2.5], [0, 2.5]], float)
+        else:
+            kw["base"] = np.array([[x, y, z] for x in (0, 1.5) for y in (0, 1.5) for z in (0, 1.5)], float)
+    return Z.make(cls, **kw)
+
+
 def geometry(obj):
     """size-carrying state: (points array or None, list of scalars)"""
     pts = np.array(obj.vertices, float) if hasattr(obj, "vertices") else None
@@ -54,8 +66,10 @@ def run(chk):
             variants.append((True, False))
         if cls == "Polygon":
             variants += [(False, True), (True, True)]      # also listed clockwise about an explicit normal (signed_area < 0)
-        for tilt, opp in variants:
-            base, _ = Z.make(cls, tilt=tilt, opposing=opp)
+        variants = [(t_, o_, None) for t_, o_ in variants] + ([(False, False, "regular")] if cls in Z.VERTEX_CLASSES else [])
+        for tilt, opp, basekind in variants:
+            BASE[0] = basekind
+            base, _ = mk(cls, tilt=tilt, opposing=opp)
             for prop in Z.settable_properties(base):
                 if prop in ("centroid", "center"):
                     translation(chk, cls, prop, tilt, rng, opp)
@@ -70,7 +84,7 @@ def run(chk):
                 # targets cur * 2^k, and fine adjustments by a few parts per million (a positive target is honoured however close it is
                 # to the current value)
                 for k in list(ks) + ["+fine", "-fine"]:
-                    obj, _ = Z.make(cls, tilt=tilt, opposing=opp)
+                    obj, _ = mk(cls, tilt=tilt, opposing=opp)
                     tgt = cur * (2.0 ** k if not isinstance(k, str) else (1 + 2.0 ** -18 if k == "+fine" else 1 - 2.0 ** -20))
                     p0, s0, c0 = geometry(obj)
                     iq0 = C.excname(getattr, obj, "iq") if hasattr(type(obj), "iq") else ("na", None)
@@ -83,7 +97,7 @@ def run(chk):
                     st, _ = C.excname(setattr, obj, prop, tgt)
                     chk.case([cls, prop, k, tilt, opp], True)
                     chk.count("cls:" + cls)
-                    desc = dict(cls=cls, prop=prop, target=tgt, current=cur, tilted=tilt, clockwise_about_normal=opp)
+                    desc = dict(cls=cls, prop=prop, target=tgt, current=cur, tilted=tilt, clockwise_about_normal=opp, base=basekind)
                     if st != "ok":
                         chk.violation("setter-raised", dict(desc, error=st)); continue
                     got = float(getattr(obj, prop))
@@ -131,6 +145,7 @@ def run(chk):
                         C03.compare(chk, cls, ["read:observables", "set:%s=%r" % (prop, tgt)], obj)
                     chk.sample(dict(cls=cls, prop=prop, target=tgt, readback=got, scale=s))
                 bad_targets(chk, cls, prop, tilt, opp=opp)
+    BASE[0] = None
     if KNOWN_POLYTRI:
         if chk.is_known("polytri-absolute-thresholds"):
             chk.known_finding("polytri-absolute-thresholds", "after rescaling a Polyhedron to ~1e-3 of its size, centroid/inertia raise ValueError('Triangulation failed') (polytri absolute thresholds)")
@@ -141,7 +156,7 @@ def run(chk):
 def bad_targets(chk, cls, prop, tilt, allow_other=None, opp=False):
     nonneg = prop == "radius" and cls in ("ConvexSpheropolygon", "ConvexSpheropolyhedron")
     for bad in ([-1.0, float("nan")] if nonneg else [0.0, -1.0, float("nan")]):
-        obj, _ = Z.make(cls, tilt=tilt, opposing=opp)
+        obj, _ = mk(cls, tilt=tilt, opposing=opp)
         snap = Z.state_snapshot(obj)
         st, _ = C.excname(setattr, obj, prop, bad)
         chk.case([cls, prop, "bad", str(bad), tilt], True)
@@ -158,7 +173,7 @@ def bad_targets(chk, cls, prop, tilt, allow_other=None, opp=False):
 
 def translation(chk, cls, prop, tilt, rng, opp):
     for trial in range(3):
-        obj, _ = Z.make(cls, tilt=tilt, opposing=opp)
+        obj, _ = mk(cls, tilt=tilt, opposing=opp)
         p0, s0, c0 = geometry(obj)
         tgt = np.array([float(x) for x in rng.integers(-8, 9, 3)]) / 2
         given = tgt.copy()
@@ -205,7 +220,8 @@ def translation(chk, cls, prop, tilt, rng, opp):
 
 def replay(chk, rep):
     d = rep["detail"]
-    obj, _ = Z.make(d["cls"], tilt=d.get("tilted", False), opposing=d.get("clockwise_about_normal", False))
+    BASE[0] = d.get("base")
+    obj, _ = mk(d["cls"], tilt=d.get("tilted", False), opposing=d.get("clockwise_about_normal", False))
     t = d["target"]
     t = float(t) if isinstance(t, str) else t
     st, _ = C.excname(setattr, obj, d["prop"], t)
